@@ -101,6 +101,26 @@ def run(facts, rep, ctx):
         rep.bad(rule, 'backward_search|single-loop', '%s:%s' % (b.file, b.line), 'expected one loop over the pattern, found %d' % len(loops))
         return
     (h, body), = loops.items()
+    # the loop must consume the whole pattern from its last symbol: iterator = pattern.rev(), no take/skip/step_by/filter
+    key = 'backward_search|loop-consumes-whole-pattern'
+    nxt = [(bb, t) for bb, t in b.calls() if bb in body and call_info(t) and call_info(t)['fn'].endswith('Iterator::next')]
+    good = False
+    if len(nxt) == 1:
+        e = strip(b.expr_operand(nxt[0][1]['args'][0], inline_user='force'))
+        if e[0] == 'call' and e[1].endswith('into_iter') and len(e[2]) == 1:
+            r0 = strip(e[2][0])
+            if r0[0] == 'call' and (r0[3] or r0[1]).endswith('Iterator::rev') and len(r0[2]) == 1 and \
+                    strip(r0[2][0])[0] == 'local' and strip(r0[2][0])[1] == 2:
+                good = True
+        why = fmt(e)
+    else:
+        why = '%d iterator steps in the loop' % len(nxt)
+    if good:
+        rep.ok(rule, key, b.loc(nxt[0][0]), 'for &a in pattern.rev()')
+    else:
+        rep.bad(rule, key, '%s:%s' % (b.file, b.line), 'the search loop iterates `%s`, not the complete reversed pattern: if it stops early '
+                                                       'the complete flag is still set and a pattern that does not occur is reported '
+                                                       'as Complete' % why[:120])
     sl, sr_ = stores_in(b, body, l), stores_in(b, body, r)
     spl, spr = stores_in(b, body, pl_), stores_in(b, body, pr_)
     key = 'backward_search|previous-interval-saved-before-update'
@@ -222,6 +242,10 @@ def run(facts, rep, ctx):
             rep.bad(rule, key, b.loc(gbb), 'an empty interval does not end the search cleanly (leaves loop: %s, symbol counted only '
                                            'when non-empty: %s, increment %s, flag cleared: %s, l/r updated after the test: %s)' % (
                         leaves, inc_ok, pstr(pinc), flag is not None, bool(after)))
+    # ---- positions may be resolved through a sampled suffix array: its writer/reader agreement is rule SB-7 of C03
+    from .c03 import sb7
+    rep.rule('SB-7', 'sampled suffix array writer/reader agreement (see C03): rows, rate, extra sentinel rows, sentinel taken from the text')
+    sb7(facts, rep)
     # ---- Interval::occ maps exactly lower..upper through the suffix array
     io = facts.one(r'^data_structures::fmindex::Interval::occ$')
     key = 'Interval::occ|maps-lower-to-upper'
